@@ -39,7 +39,7 @@ def hunks(diff_text):
     return out
 
 
-def main(patch, prop, vid, rule):
+def main(patch, prop, vid, rule, kind="break"):
     edits = []
     for f, old, new in hunks(open(patch).read()):
         o, n = "\n".join(old) + "\n", "\n".join(new) + "\n"
@@ -58,11 +58,15 @@ def main(patch, prop, vid, rule):
     path = os.path.join(VERIF, "variants", f"{prop}.json")
     d = json.load(open(path))
     d["variants"] = [v for v in d["variants"] if v["id"] != vid]
-    d["variants"].append({"id": vid, "file": edits[0]["file"], "edits": edits, "expect_rule": rule, "kind": "break", "origin": "independently seeded change (DESIGN.md section 10)"})
+    rec = {"id": vid, "file": edits[0]["file"], "edits": edits, "expect_rule": rule, "kind": kind, "origin": "independently seeded change (DESIGN.md section 10)"}
+    if kind == "neutral":
+        rec["whole"] = True
+        rec["origin"] = "independently written behaviour-preserving refactoring (DESIGN.md section 10, Neutrality)"
+    d["variants"].append(rec)
     json.dump(d, open(path, "w"), indent=1)
     print(f"{vid}: {len(edits)} edit(s) -> variants/{prop}.json (expects {rule})")
     return 0
 
 
 if __name__ == "__main__":
-    sys.exit(main(*sys.argv[1:5]))
+    sys.exit(main(*sys.argv[1:6]))
